@@ -25,37 +25,58 @@ if ! cargo +nightly fuzz build -s none --fuzz-dir /verif/fuzz --target-dir /veri
 fi
 BIN=/verif/.build/fuzz/x86_64-unknown-linux-gnu/release/$TARGET
 # the targets keep their work directory under MRV_SCRATCH/mrverif-<pid>: give them one that is removed afterwards
-MRV_SCRATCH=$(mktemp -d /tmp/mrvfuzz.XXXXXX); export MRV_SCRATCH
+MRV_SCRATCH=$(mktemp -d /dev/shm/mrvfuzz.XXXXXX 2>/dev/null || mktemp -d /tmp/mrvfuzz.XXXXXX); export MRV_SCRATCH
 trap 'rm -rf "$MRV_SCRATCH"' EXIT INT TERM
 total_runs=0; crashed=false; replay=""
+# K independent campaigns per starting corpus (empty / seeded), all 2K at once: libFuzzer is
+# single-threaded, the machine has 16 cores. Each instance has its own corpus, artefact
+# directory, log and -seed (VERIF_SEED + 1 + 100*k for the empty start, + 50 more for the seeded one).
+K=${FUZZ_INSTANCES:-4}
+pids=""
 for START in empty seeded; do
-  CORPUS=/verif/.build/fuzz-corpus-$ID-$START
-  ART=/verif/.build/fuzz-artifacts-$ID/
-  rm -rf "$CORPUS" "$ART"; mkdir -p "$CORPUS" "$ART"
-  if [ "$START" = seeded ]; then
-    # a few pseudo-random starting inputs (libFuzzer ramps up length slowly from an empty corpus)
-    i=0; while [ $i -lt 16 ]; do head -c $((MAXLEN / 2)) /dev/urandom > "$CORPUS/r$i" 2>/dev/null; i=$((i+1)); done
-    # deterministic content: derive from the seed instead of /dev/urandom
-    python3 - "$CORPUS" "$SEED" "$MAXLEN" <<'PY'
+  k=0
+  while [ $k -lt $K ]; do
+    CORPUS=/verif/.build/fuzz-corpus-$ID-$START-$k
+    ART=/verif/.build/fuzz-artifacts-$ID-$START-$k/
+    rm -rf "$CORPUS" "$ART"; mkdir -p "$CORPUS" "$ART"
+    off=0
+    if [ "$START" = seeded ]; then
+      off=50
+      # pseudo-random starting inputs derived from the seed (libFuzzer ramps up length slowly from an empty corpus)
+      python3 - "$CORPUS" "$((SEED + k))" "$MAXLEN" <<'PY'
 import sys,random,os
 d,seed,maxlen=sys.argv[1],int(sys.argv[2]),int(sys.argv[3])
 rnd=random.Random(seed)
 for i in range(16):
     open(os.path.join(d,'r%d'%i),'wb').write(bytes(rnd.getrandbits(8) for _ in range(rnd.randint(8,maxlen))))
 PY
-  fi
-  "$BIN" "$CORPUS" -runs=$RUNS -seed=$((SEED + 1)) -max_len=$MAXLEN -len_control=0 -artifact_prefix="$ART" -print_final_stats=1 -timeout=60 -rss_limit_mb=4096 >>"$LOG" 2>&1
-  code=$?
-  r=$(grep -a "stat::number_of_executed_units" "$LOG" | tail -1 | awk '{print $2}')
-  total_runs=$((total_runs + ${r:-0}))
-  if [ $code -ne 0 ]; then
-    crashed=true
-    replay=$(grep -a "FUZZ-VIOLATION" "$LOG" | tail -1 | sed 's/.*replay=\([^ ]*\).*/\1/')
-    break
-  fi
+    fi
+    ILOG=/verif/.build/fuzz-$ID-$START-$k.log
+    ( "$BIN" "$CORPUS" -runs=$RUNS -seed=$((SEED + 1 + off + 100 * k)) -max_len=$MAXLEN -len_control=0 -artifact_prefix="$ART" -print_final_stats=1 -timeout=60 -rss_limit_mb=4096 >"$ILOG" 2>&1; echo "exit=$?" >>"$ILOG" ) &
+    pids="$pids $!"
+    k=$((k+1))
+  done
 done
-cov=$(grep -a "cov:" "$LOG" | tail -1 | sed 's/.*cov: \([0-9]*\).*/\1/')
-corp=$(ls /verif/.build/fuzz-corpus-$ID-seeded 2>/dev/null | wc -l)
-printf '{"engine":"libFuzzer","target":"%s","runs":%s,"coverage_edges":%s,"corpus_files":%s,"starts":["empty","seeded"],"crashed":%s,"replay":"%s"}\n' "$TARGET" "${total_runs:-0}" "${cov:-0}" "${corp:-0}" "$crashed" "$replay" > "$OUT"
+wait $pids
+cov=0; corp=0
+for START in empty seeded; do
+  k=0
+  while [ $k -lt $K ]; do
+    ILOG=/verif/.build/fuzz-$ID-$START-$k.log
+    cat "$ILOG" >>"$LOG"
+    r=$(grep -a "stat::number_of_executed_units" "$ILOG" | tail -1 | awk '{print $2}')
+    total_runs=$((total_runs + ${r:-0}))
+    c=$(grep -a "cov:" "$ILOG" | tail -1 | sed 's/.*cov: \([0-9]*\).*/\1/')
+    [ "${c:-0}" -gt "$cov" ] 2>/dev/null && cov=$c
+    n=$(ls /verif/.build/fuzz-corpus-$ID-$START-$k 2>/dev/null | wc -l); corp=$((corp + n))
+    if ! grep -aq "^exit=0" "$ILOG"; then
+      crashed=true
+      rp=$(grep -a "FUZZ-VIOLATION" "$ILOG" | tail -1 | sed 's/.*replay=\([^ ]*\).*/\1/')
+      [ -n "$rp" ] && replay=$rp
+    fi
+    k=$((k+1))
+  done
+done
+printf '{"engine":"libFuzzer","target":"%s","runs":%s,"coverage_edges":%s,"corpus_files":%s,"starts":["empty","seeded"],"instances":%s,"crashed":%s,"replay":"%s"}\n' "$TARGET" "${total_runs:-0}" "${cov:-0}" "${corp:-0}" "$((2 * K))" "$crashed" "$replay" > "$OUT"
 cat "$OUT"
 exit 0
